@@ -325,6 +325,14 @@ func (f *fileCtx) selector(x *ast.SelectorExpr) {
 		if f.mode == "explore" {
 			to = "vrt.Sleep"
 		}
+	case "time.Since":
+		if f.mode == "explore" {
+			to = "vrt.Since" // virtual clock
+		}
+	case "time.Until":
+		if f.mode == "explore" {
+			to = "vrt.Until"
+		}
 	case "runtime.SetFinalizer":
 		if f.mode == "explore" {
 			to = "vrt.SetFinalizer" // run by the explorer once the harness declares the object unreachable
